@@ -156,3 +156,9 @@ package types
 //@ func (p Params) Validate
 //@ ensures err == nil ==> p.CurrentFeedsUpdateInterval > 0 && p.PowerStepThreshold > 0 && p.MinInterval > 0 && p.MaxInterval > 0
 //@ ensures err == nil ==> ext("LegacyNewDecFromStr#1", p.PriceQuorum) == nil
+
+// C06: the order the weighted median scans in: by price ascending over the FULL uint64 range (a huge outlier is the
+// largest price, it must not wrap around to the front), ties by weight ascending
+//@ func MedianWeightedPrice$lit0
+//@ ensures result < 0 <==> (a.Price < b.Price || (a.Price == b.Price && a.Weight < b.Weight))
+//@ ensures result > 0 <==> (a.Price > b.Price || (a.Price == b.Price && a.Weight > b.Weight))
